@@ -9,6 +9,7 @@ from datetime import datetime, timedelta
 from enum import Enum, IntEnum, IntFlag
 from functools import lru_cache
 from http import HTTPStatus
+from io import BytesIO
 from mimetypes import guess_type
 from time import monotonic as monotonic_timer
 from typing import (
@@ -25,9 +26,9 @@ from typing import (
     Union,
 )
 from xml.sax.handler import ContentHandler, ErrorHandler
-from xml.sax.xmlreader import AttributesImpl
+from xml.sax.xmlreader import AttributesImpl, InputSource
 
-from defusedxml.sax import parseString
+from defusedxml.sax import parse
 from didl_lite import didl_lite
 
 from async_upnp_client.client import UpnpService, UpnpStateVariable
@@ -184,7 +185,12 @@ def _parse_last_change_event(text: str) -> Mapping[str, Mapping[str, str]]:
     """
     content_handler = DlnaDmrEventContentHandler()
     error_handler = DlnaDmrEventErrorHandler()
-    parseString(text.encode(), content_handler, error_handler)
+    # The text is already decoded: parse it as UTF-8 whatever encoding an XML
+    # declaration inside it may name.
+    source = InputSource()
+    source.setByteStream(BytesIO(text.encode()))
+    source.setEncoding("utf-8")
+    parse(source, content_handler, error_handler)
     return content_handler.changes
 
 
